@@ -86,7 +86,10 @@ func inList(ss []string, s string) bool {
 // edges lists the real labels a real label needs: everything it declares, the provide it is
 // re-routed to (never for data or tool dependencies, as documented for require/provide), and a
 // macro rule's hidden child.
-func edges(r *b.Repo, label string) []string {
+func edges(r *b.Repo, label string) []string { return edgesOf(r, label, true) }
+
+// edgesOf: with resolved == false only what the label declares itself (and a macro rule's hidden child).
+func edgesOf(r *b.Repo, label string, resolved bool) []string {
 	t := r.Owner(label)
 	if t == nil {
 		return nil
@@ -116,7 +119,7 @@ func edges(r *b.Repo, label string) []string {
 	for _, l := range t.InputLabels() {
 		l = absLabel(t.Pkg, l)
 		out = append(out, l)
-		if len(t.Requires) == 0 || inList(tools, l) || inList(data, l) {
+		if !resolved || len(t.Requires) == 0 || inList(tools, l) || inList(data, l) {
 			continue
 		}
 		d := r.Owner(l)
@@ -271,6 +274,7 @@ func gcSiblingOf(r *b.Repo, t *b.Target) string {
 
 type evalStats struct {
 	closure, roots, listedTargets, listedSrcs int
+	viaProvides                               int // closure members that only a resolved provide leads to
 	obs                                       map[string]int
 }
 
@@ -278,9 +282,11 @@ type evalStats struct {
 func evaluate(r *b.Repo, inv gcInv, out gcOutput) ([]finding, evalStats) {
 	k := mustKeep(r, inv)
 	st := evalStats{closure: len(k), listedTargets: len(out.Targets), listedSrcs: len(out.Srcs), obs: map[string]int{}}
-	for _, v := range k {
+	for l, v := range k {
 		if v.IsRoot {
 			st.roots++
+		} else if !declaredByKept(r, k, l) {
+			st.viaProvides++
 		}
 	}
 	var fs []finding
@@ -302,6 +308,10 @@ func evaluate(r *b.Repo, inv gcInv, out gcOutput) ([]finding, evalStats) {
 		class := "dep-of:" + why.Reason
 		if why.IsRoot {
 			class = "root:" + why.Reason
+		} else if !declaredByKept(r, k, l) {
+			// nothing that is kept names this target: it is needed because a kept target that `requires` a
+			// language was re-routed to it by the `provides` of something it declares (or it is below such a target)
+			class = "dep-through-provides-of:" + why.Reason
 		}
 		sib := ""
 		if t := r.Target(l); t != nil {
@@ -371,6 +381,34 @@ func evaluate(r *b.Repo, inv gcInv, out gcOutput) ([]finding, evalStats) {
 		}
 	}
 	return fs, st
+}
+
+// declaredByKept reports whether a target of the closure reaches label l through declarations only, i.e.
+// whether a walk that never follows a require/provide re-routing would still find it.
+func declaredByKept(r *b.Repo, k map[string]kept, l string) bool {
+	seen := map[string]bool{}
+	var walk func(x string) bool
+	walk = func(x string) bool {
+		if x == l {
+			return true
+		}
+		if seen[x] {
+			return false
+		}
+		seen[x] = true
+		for _, e := range edgesOf(r, x, false) {
+			if walk(e) {
+				return true
+			}
+		}
+		return false
+	}
+	for x, v := range k {
+		if v.IsRoot && walk(x) {
+			return true
+		}
+	}
+	return false
 }
 
 // pathTo returns one dependency path root -> ... -> target through the reference edges.
@@ -668,13 +706,102 @@ func genRepo(rng *rand.Rand) *b.Repo {
 			t.Data = append(t.Data, f)
 		}
 	}
+	if rng.Intn(3) != 0 {
+		addReroutes(rng, repo)
+	}
 	return repo
+}
+
+// addReroutes gives some consumers a `requires` that one of their declared inputs `provides`, pointing
+// at an earlier target which (when there is one) nothing else mentions: the consumer is then built from a
+// target that no kept target declares, only the resolved dependency graph knows about it. The generator's
+// own provides (pa/pb/pc) never meet its requires (lx/py), and the macro's `lx` child is also a declared
+// dependency of the macro rule, so without this every re-routed target is reachable by declarations too.
+func addReroutes(rng *rand.Rand, repo *b.Repo) int {
+	idx := map[string]int{}
+	mentioned := map[string]bool{}
+	for i, t := range repo.Targets {
+		idx[t.Label()] = i
+		for _, l := range t.InputLabels() {
+			mentioned[absLabel(t.Pkg, l)] = true
+		}
+		for _, v := range t.Provides {
+			mentioned[absLabel(t.Pkg, v)] = true
+		}
+	}
+	type cand struct{ t, d *b.Target }
+	var cands, binCands []cand
+	for _, t := range repo.Targets {
+		if t.Kind == b.Lib || t.Kind == b.TextFile || t.IsTool {
+			continue
+		}
+		var skip []string // tool and data dependencies are never re-routed
+		skip = append(skip, t.Tools...)
+		for _, k := range b.SortedKeys(t.NamedTools) {
+			skip = append(skip, t.NamedTools[k]...)
+		}
+		skip = append(skip, t.DataLabels()...)
+		for i := range skip {
+			skip[i] = absLabel(t.Pkg, skip[i])
+		}
+		for _, l := range t.InputLabels() {
+			l = absLabel(t.Pkg, l)
+			d := repo.Target(l)
+			if inList(skip, l) || d == nil || d.IsTool || (d.Kind != b.Genrule && d.Kind != b.Filegroup) || idx[l] == 0 {
+				continue
+			}
+			cands = append(cands, cand{t, d})
+			if t.Binary {
+				binCands = append(binCands, cand{t, d})
+			}
+		}
+	}
+	n := 0
+	for j := 0; j < 2 && len(cands) > 0; j++ {
+		c := cands[rng.Intn(len(cands))]
+		if len(binCands) > 0 && rng.Intn(4) != 0 {
+			c = binCands[rng.Intn(len(binCands))]
+		}
+		if _, ok := c.d.Provides["rq"]; ok {
+			continue
+		}
+		var fresh, any []*b.Target
+		for _, p := range repo.Targets[:idx[c.d.Label()]] {
+			if p.IsTool || p.Kind == b.Gentest || p.TestOnly {
+				continue
+			}
+			any = append(any, p)
+			if !mentioned[p.Label()] && !p.Binary && len(p.Labels) == 0 {
+				fresh = append(fresh, p)
+			}
+		}
+		if len(fresh) > 0 {
+			any = fresh
+		}
+		if len(any) == 0 {
+			continue
+		}
+		p := any[rng.Intn(len(any))]
+		if c.d.Provides == nil {
+			c.d.Provides = map[string]string{}
+		}
+		c.d.Provides["rq"] = p.Label()
+		mentioned[p.Label()] = true
+		if !inList(c.t.Requires, "rq") {
+			c.t.Requires = append(c.t.Requires, "rq")
+		}
+		n++
+		if rng.Intn(2) == 0 {
+			break
+		}
+	}
+	return n
 }
 
 func TestC25(t *testing.T) {
 	r := lib.Start("C25")
 	defer lib.End(t, r)
-	r.Rule = "seeded repositories of 5-13 model targets (non-test binaries and tools, macro libraries with a hidden child that is provided for `lx`, filegroups and genrules with provides/requires, text files, gentest tests with file / directory / label data, test_only targets, gc_sibling: labels, files shared between targets exactly or through a directory source, nested and root packages, subincluded build_defs built by a filegroup or a genrule) x 3 invocations of `plz gc --dry_run` with random [gc] keep (labels, :all, /...), keeplabel, --conservative and command-line filters. " +
+	r.Rule = "seeded repositories of 5-13 model targets (non-test binaries and tools, macro libraries with a hidden child that is provided for `lx`, filegroups and genrules with provides/requires (in two of three repositories some consumer requires what one of its inputs provides, the provided target being mentioned by nothing else when possible), text files, gentest tests with file / directory / label data, test_only targets, gc_sibling: labels, files shared between targets exactly or through a directory source, nested and root packages, subincluded build_defs built by a filegroup or a genrule) x 3 invocations of `plz gc --dry_run` with random [gc] keep (labels, :all, /...), keeplabel, --conservative and command-line filters. " +
 		"Distinct by JSON of repository + invocation; non-trivial = the tool proposed at least one removal and the reference closure contains at least one target that is not a root"
 	r.Assumes = []string{
 		"the reference closure is computed from the generator's model (declared inputs, require/provide re-routing except for data and tools, macro child), never from plz query",
@@ -721,6 +848,10 @@ func TestC25(t *testing.T) {
 			r.Obs("sources_proposed_for_removal", int64(st.listedSrcs))
 			r.Obs("reference_closure_targets_checked", int64(st.closure))
 			r.Obs("reference_roots", int64(st.roots))
+			r.Obs("reference_closure_targets_reached_only_through_provides", int64(st.viaProvides))
+			if st.viaProvides > 0 {
+				r.Obs("proposals_with_targets_needed_only_through_provides", 1)
+			}
 			if st.listedSrcs > 0 {
 				r.Obs("proposals_with_sources", 1)
 			}
@@ -770,7 +901,7 @@ func TestC25(t *testing.T) {
 			}
 		}
 	})
-	r.RequireObserved("gc_proposals_checked", "targets_proposed_for_removal", "sources_proposed_for_removal", "reference_closure_targets_checked", "root_reasons_seen")
+	r.RequireObserved("gc_proposals_checked", "targets_proposed_for_removal", "sources_proposed_for_removal", "reference_closure_targets_checked", "root_reasons_seen", "reference_closure_targets_reached_only_through_provides")
 }
 
 // TestDevMaterialise is a development aid: VERIF_DEV_DIR=<dir> writes the repository of case
